@@ -443,7 +443,8 @@ class RefPeer:
     TWICE = ("refpeer.Twice", 900002, 2)
     METHODS = {"add": ("refpeer.Method", 900003, 11), "echo": ("refpeer.Method", 900003, 12),
                "stop": ("refpeer.Method", 900003, 13), "fail": ("refpeer.Method", 900003, 14),
-               "__enter__": ("refpeer.Method", 900003, 15), "__iter__": ("refpeer.Method", 900003, 16)}
+               "__enter__": ("refpeer.Method", 900003, 15), "__iter__": ("refpeer.Method", 900003, 16),
+               "kw": ("refpeer.Method", 900003, 17), "custom": ("refpeer.Method", 900003, 18)}
     ITER = ("refpeer.Iter", 900004, 3)
     SEQ = ("refpeer.Seq", 900005, 4)
     CTX = ("refpeer.Ctx", 900006, 5)
@@ -517,6 +518,10 @@ class RefPeer:
             return self._packet(exception(seq, EXC_STOP_ITERATION))
         except _Closed:
             return b""
+        except CustomError as ex:
+            return self._packet(exception(seq, (("refpeer", "CustomError"), tuple(ex.args),
+                                                (("code", 7), ("_remote_version", "<version denied>")),
+                                                "Traceback (reference peer)\nrefpeer.CustomError: m")))
         except Exception as ex:  # noqa
             return self._packet(exception(seq, dumped_exception("builtins", type(ex).__name__,
                                                                 [a if encodable(a) else repr(a) for a in ex.args])))
@@ -558,7 +563,7 @@ class RefPeer:
                 return _Obj(self.ITER)
             if name in ("seq", "ctx", "Klass"):
                 return _Obj({"seq": self.SEQ, "ctx": self.CTX, "Klass": self.KLASS}[name])
-            if name in ("add", "echo", "stop", "fail"):
+            if name in ("add", "echo", "stop", "fail", "kw", "custom"):
                 return _Obj(self.METHODS[name])
         if obj.key == self.CTX and name == "__enter__":
             return _Obj(self.METHODS[name])
@@ -567,9 +572,21 @@ class RefPeer:
         raise AttributeError(name)
 
     def _call(self, target, args, kwargs):
-        if dict(kwargs):
-            raise TypeError("no keyword arguments")
+        # keyword arguments travel as a tuple of (name, value) pairs
+        if type(kwargs) is not tuple or not all(type(p) is tuple and len(p) == 2 and type(p[0]) is str for p in kwargs):
+            raise TypeError("keyword arguments are not a tuple of (name, value) pairs: %r" % (kwargs,))
+        kw = dict(kwargs)
+        if type(args) is not tuple:
+            raise TypeError("positional arguments are not a tuple")
         key = getattr(target, "key", None)
+        if key == self.METHODS["kw"]:
+            def kwf(a, b=0, c=0):
+                return (a, b, c)
+            return kwf(*args, **kw)
+        if kw:
+            raise TypeError("unexpected keyword arguments %r" % (sorted(kw),))
+        if key == self.METHODS["custom"]:
+            raise CustomError("m", 3)
         name = "twice" if key == self.TWICE else dict((v, k) for k, v in self.METHODS.items()).get(key)
         if name == "__enter__":
             self.ctx_log.append("enter")
@@ -670,7 +687,7 @@ class RefPeer:
             (id_pack,) = args
             key = tuple(id_pack)
             if key == self.ROOT:
-                return (("add", "add(a, b)"), ("echo", None), ("stop", None), ("fail", None))
+                return (("add", "add(a, b)"), ("echo", None), ("stop", None), ("fail", None), ("kw", "kw(a, b=0, c=0)"))
             if key == self.TWICE or key in self.METHODS.values():
                 return (("__call__", "call it"),)
             if key == self.ITER:
@@ -691,6 +708,10 @@ class RefPeer:
 
 class _Closed(Exception):
     pass
+
+
+class CustomError(Exception):
+    """an exception class the other side does not have"""
 
 
 class _Obj:
